@@ -96,6 +96,19 @@ contract(
         "implies(not old(self.finalised) and not self.prior_sampling and "
         "not (self.condition <= self.tolerance), not self.finalised)",
         "implies(not old(self.finalised), result[0] == self.state.logZ)",
+        # C05: the number of returned samples is iterations + live points
+        # for a finished run, iterations when it was cut short by the cap;
+        # their likelihoods ascend; recorded == integrated
+        "implies(not old(self.finalised) and self.finalised, "
+        "len(self.nested_samples) == self.iteration + self.nlive)",
+        "implies(not old(self.finalised) and not self.finalised, "
+        "len(self.nested_samples) == self.iteration)",
+        "implies(not old(self.finalised), "
+        "sorted_by(self.nested_samples, 'logL'))",
+        "implies(not old(self.finalised), len(self.state.logLs) == "
+        "len(self.nested_samples) + 1 and forall(i, 0, "
+        "len(self.nested_samples), self.state.logLs[i + 1] == "
+        "self.nested_samples[i]['logL']))",
     ],
 )
 
